@@ -1152,8 +1152,9 @@ func callBuiltin(caller *frame, callpos token.Pos, fn *ssa.Builtin, args []value
 		if recv.(*value) == nil {
 			recvType := args[1]
 			methodName := args[2]
-			panic(fmt.Sprintf("value method (%s).%s called using nil *%s pointer",
-				recvType, methodName, recvType))
+			// runtime.panicwrap: a run-time panic of the target program, not an engine failure
+			panic(targetPanic{iface{caller.i.runtimeErrorString, fmt.Sprintf("value method %s.%s called using nil *%s pointer",
+				recvType, methodName, recvType)}})
 		}
 		return recv
 
